@@ -137,6 +137,12 @@ def parse_outcome(src, parser=None, step_factor=2, step_const=16):
     A lexer-step budget of step_factor*len+step_const turns a hang into a
     finite observation (exc == 'StepLimit')."""
     p = parser if parser is not None else Parser()
+    if isinstance(src, bytes) and len(src) % 5 == 3:
+        # parse() takes text as well as bytes: every fifth length goes in as str
+        try:
+            src = src.decode("utf-8")
+        except UnicodeDecodeError:
+            pass
     n = len(src.encode("utf-8", "surrogatepass")) if isinstance(src, str) else len(src)
     from . import core as _core
     if _core.slow_count() >= SLOW_LIMIT:
